@@ -137,9 +137,16 @@ let t_case (c : case) : string =
   end;
   Buffer.add_string b " l";
   if has_ev then SL.iter (fun s -> Buffer.add_string b (" " ^ s)) qpreds;
+  if c.scheme = "gauss" && c.comp = "ind" then begin
+    let train = SL.init c.ntrain (fun i -> (c.otrain.(0).(i), nat_of_int (class_label c.labels.(i)))) in
+    Buffer.add_string b " var";
+    match gauss_build (nat_of_int c.classes) train with
+    | Some g -> SL.iter (fun mv -> Buffer.add_string b (" " ^ hex_of_f64 (Stdlib.snd mv))) (gauss_stats g)
+    | None -> raise Undefined_behaviour
+  end;
   Buffer.contents b
 
-let parse_op (s : string) : int op =
+let parse_op (s : string) : int list op =
   match String.split_on_char ':' s with
   | ["N"; l] -> MNew (SL.map int_of_string (String.split_on_char ',' l))
   | ["C"; a] -> MCopy (nat_of_int (int_of_string a))
@@ -168,7 +175,7 @@ let h_case (c : case) : string =
           | None -> ()
           | Some _ ->
               Buffer.add_string b (" " ^ string_of_int m ^ "=");
-              (match model_programs s (nat_of_int m) with
+              (match model_program s (nat_of_int m) with
                | None -> Buffer.add_string b "DANGLING"
                | Some qs ->
                    let ps = SL.init c.nquery (fun j -> pred qs (fun q -> c.oquery.(q).(j))) in
